@@ -253,6 +253,21 @@ fn worker(args: &[String]) -> i32 {
             let vd = verdict.as_ref().map(|(v, _)| rng::fnv1a(v.oracle.as_bytes())).unwrap_or(0);
             rep.digests.push((run, case_digest(&case) ^ vd ^ (st.public_calls - pc0).wrapping_mul(0x9E37_79B9) ^ (st.io_calls - io0).rotate_left(21)));
         }
+        // determinism sample: about 1 % of the runs are executed a second time in this process and
+        // must give the same verdict and the same logical-time counts
+        if run % 97 == 3 && verdict.is_none() {
+            let mut again = Stats::default();
+            let v2 = props::check_case(&prop, &case, &mut again);
+            let (pc, io) = (st.public_calls - pc0, st.io_calls - io0);
+            if v2.is_some() || again.public_calls != pc || again.io_calls != io {
+                eprintln!(
+                    "HARNESS-ERROR: run {} of {} is not deterministic (calls {} vs {}, io {} vs {}, second verdict {:?})",
+                    run, prop, pc, again.public_calls, io, again.io_calls, v2.as_ref().map(|(v, _)| v.oracle.clone())
+                );
+                std::process::exit(3);
+            }
+            st.c.inc("determinism_samples_reexecuted");
+        }
         if let Some((v, repl)) = verdict {
             let failing = repl.unwrap_or(case);
             let (min_case, execs) = if v.oracle.starts_with("harness") {
@@ -417,6 +432,9 @@ fn spawn_workers(
     let mut res = Vec::new();
     for ((w, mut ch), out) in children.into_iter().zip(outs.into_iter()) {
         let status = ch.wait().map_err(|e| e.to_string())?;
+        if status.code() == Some(3) {
+            return Err(format!("worker {} of {} reported a determinism mismatch", w, prop));
+        }
         if !status.success() {
             res.push((out, Some(format!("worker {} of {} died with {:?}", w, prop, status))));
         } else {
@@ -776,6 +794,21 @@ fn main() {
             None => 2,
         },
         Some("selftest") => selftest(&args),
+        Some("gen") => {
+            // print the case a given run index generates (debugging aid)
+            let prop = arg(&args, "--prop").unwrap_or_else(|| "C01".into());
+            let tier = tier_of(&arg(&args, "--tier").unwrap_or_default());
+            let master: u64 = arg(&args, "--seed").and_then(|s| s.parse().ok()).unwrap_or(DEFAULT_SEED);
+            let run: u64 = arg(&args, "--run").and_then(|s| s.parse().ok()).unwrap_or(0);
+            let mut r = Rng::new(sub_seed(master, &prop, run));
+            let case = if args.iter().any(|a| a == "--tiny") { props_env::gen_tiny(&mut r) } else { props::gen_case_indexed(&prop, &mut r, tier, run) };
+            if args.iter().any(|a| a == "--full") {
+                println!("{}", serde_json::to_string(&case).unwrap());
+            } else {
+                println!("{}", run::summarize_case(&case));
+            }
+            0
+        }
         _ => {
             eprintln!("usage: grenad-sim check --prop <ID> --tier quick|thorough | replay <file> | selftest");
             2
